@@ -820,19 +820,22 @@ impl<DB: DatabaseRef> ParallelState<DB> {
         &mut self,
         addresses: impl IntoIterator<Item = Address>,
     ) -> Result<Vec<u128>, DB::Error> {
-        // make transition and update cache state
-        let mut transitions = Vec::new();
+        // As revm's `State` does (`DatabaseCommitExt::drain_balances`): drain through a touched
+        // journal account and commit it, so that an account left empty is cleared and a missing
+        // account stays missing instead of being materialised.
+        let mut drained = revm_primitives::AddressMap::default();
         let mut balances = Vec::new();
         for address in addresses {
-            let mut original_account = self.load_mut_cache_account(address)?;
-            let (balance, transition) = original_account.drain_balance();
-            balances.push(balance);
-            transitions.push((address, transition))
+            let mut account = match self.db_basic(address)? {
+                Some(info) => Account::from(info),
+                None => Account::new_not_existing(revm_state::TransactionId::ZERO),
+            };
+            let balance = core::mem::take(&mut account.info.balance);
+            account.mark_touch();
+            balances.push(balance.try_into().unwrap());
+            drained.insert(address, account);
         }
-        // append transition
-        if let Some(s) = self.transition_state.as_mut() {
-            s.add_transitions(transitions)
-        }
+        self.commit(drained);
         Ok(balances)
     }
 
